@@ -81,3 +81,421 @@ Proof.
   induction ps as [|p ps IH]; intros d; cbn; [reflexivity|]. rewrite IH. apply set_nth_length.
 Qed.
 End Untouched.
+
+(* ---------------------------------------------------------------------- *)
+(* Ordered field: the repaired rows                                         *)
+Section OrderedField.
+Variable F : Type.
+Variable O : ops F.
+Local Notation zero := (f0 O).
+Local Notation one := (f1 O).
+Local Infix "+f" := (fadd O) (at level 50, left associativity).
+Local Infix "*f" := (fmul O) (at level 40, left associativity).
+Local Infix "/f" := (fdiv O) (at level 40, left associativity).
+Local Notation "a <f b" := (fltb O a b = true) (at level 70).
+Local Notation "a <=f b" := (fltb O b a = false) (at level 70).
+
+Hypothesis Fth : field_theory zero one (fadd O) (fmul O) (fsub O) (fopp O) (fdiv O) (finv O) eq.
+Add Field Ffield : Fth.
+Hypothesis lt_irrefl : forall a, fltb O a a = false.
+Hypothesis lt_trans : forall a b c, a <f b -> b <f c -> a <f c.
+Hypothesis lt_total : forall a b, a <f b \/ a = b \/ b <f a.
+Hypothesis lt_add : forall a b c, a <f b -> (a +f c) <f (b +f c).
+Hypothesis lt_mul : forall a b, zero <f a -> zero <f b -> zero <f (a *f b).
+Set Default Proof Using "Fth lt_irrefl lt_trans lt_total lt_add lt_mul".
+
+Lemma le_refl a : a <=f a.
+Proof. apply lt_irrefl. Qed.
+
+Lemma lt_asym a b : a <f b -> b <f a -> False.
+Proof. intros H1 H2. pose proof (lt_trans _ _ _ H1 H2) as H. rewrite lt_irrefl in H. discriminate. Qed.
+
+Lemma lt_neq a b : a <f b -> a <> b.
+Proof. intros H ->. rewrite lt_irrefl in H. discriminate. Qed.
+
+Lemma le_cases a b : a <=f b <-> (a <f b \/ a = b).
+Proof.
+  split.
+  - intros H. destruct (lt_total a b) as [H1|[H1|H1]]; auto. congruence.
+  - intros [H| ->]; [|apply le_refl].
+    destruct (fltb O b a) eqn:E; auto. exfalso. eapply lt_asym; eauto.
+Qed.
+
+Lemma lt_le a b : a <f b -> a <=f b.
+Proof. intros H. apply le_cases. now left. Qed.
+
+Lemma le_trans a b c : a <=f b -> b <=f c -> a <=f c.
+Proof.
+  rewrite !le_cases. intros [H1| ->] [H2| ->]; auto. left. eapply lt_trans; eauto.
+Qed.
+
+Lemma le_lt_trans a b c : a <=f b -> b <f c -> a <f c.
+Proof. rewrite le_cases. intros [H1| ->] H2; auto. eapply lt_trans; eauto. Qed.
+
+Lemma le_add a b c : a <=f b -> (a +f c) <=f (b +f c).
+Proof.
+  intros H. destruct (fltb O (b +f c) (a +f c)) eqn:E; auto. exfalso.
+  pose proof (lt_add _ _ (fopp O c) E) as H1.
+  replace (b +f c +f fopp O c) with b in H1 by ring.
+  replace (a +f c +f fopp O c) with a in H1 by ring. congruence.
+Qed.
+
+Lemma nonneg_add a b : zero <=f a -> zero <=f b -> zero <=f (a +f b).
+Proof.
+  intros Ha Hb. apply le_trans with b; auto.
+  pose proof (le_add _ _ b Ha) as H. now replace (zero +f b) with b in H by ring.
+Qed.
+
+Lemma nonneg_mul a b : zero <=f a -> zero <=f b -> zero <=f (a *f b).
+Proof.
+  rewrite (le_cases zero a), (le_cases zero b). intros [Ha|Ha] [Hb|Hb].
+  - apply lt_le. now apply lt_mul.
+  - subst b. replace (a *f zero) with zero by ring. apply le_refl.
+  - subst a. replace (zero *f b) with zero by ring. apply le_refl.
+  - subst a. replace (zero *f b) with zero by ring. apply le_refl.
+Qed.
+
+Lemma zero_lt_one : zero <f one.
+Proof.
+  destruct (lt_total zero one) as [H|[H|H]]; auto.
+  - exfalso. apply (F_1_neq_0 Fth). auto.
+  - exfalso. pose proof (lt_add _ _ (fopp O one) H) as H1.
+    replace (one +f fopp O one) with zero in H1 by ring.
+    replace (zero +f fopp O one) with (fopp O one) in H1 by ring.
+    pose proof (lt_mul _ _ H1 H1) as H2.
+    replace (fopp O one *f fopp O one) with one in H2 by ring.
+    eapply lt_asym; eauto.
+Qed.
+
+Lemma inv_pos s : zero <f s -> zero <f finv O s.
+Proof.
+  intros Hs. assert (Hne : s <> zero) by (intros ->; rewrite lt_irrefl in Hs; discriminate).
+  destruct (lt_total zero (finv O s)) as [H|[H|H]]; auto; exfalso.
+  - assert (E : one = s *f finv O s) by (field; auto).
+    rewrite <- H in E. replace (s *f zero) with zero in E by ring.
+    apply (F_1_neq_0 Fth). auto.
+  - pose proof (lt_add _ _ (fopp O (finv O s)) H) as H1.
+    replace (finv O s +f fopp O (finv O s)) with zero in H1 by ring.
+    replace (zero +f fopp O (finv O s)) with (fopp O (finv O s)) in H1 by ring.
+    pose proof (lt_mul _ _ Hs H1) as H2.
+    replace (s *f fopp O (finv O s)) with (fopp O one) in H2 by (field; auto).
+    pose proof (lt_add _ _ one H2) as H3.
+    replace (zero +f one) with one in H3 by ring.
+    replace (fopp O one +f one) with zero in H3 by ring.
+    eapply lt_asym; [exact zero_lt_one | exact H3].
+Qed.
+
+Lemma div_nonneg v s : zero <=f v -> zero <f s -> zero <=f (v /f s).
+Proof.
+  intros Hv Hs. assert (Hne : s <> zero) by (intros ->; rewrite lt_irrefl in Hs; discriminate).
+  replace (v /f s) with (v *f finv O s) by (field; auto).
+  apply nonneg_mul; auto. apply lt_le, inv_pos, Hs.
+Qed.
+
+Lemma mul_le_mono w a b : zero <=f w -> a <=f b -> (w *f a) <=f (w *f b).
+Proof.
+  intros Hw Hab.
+  assert (H : zero <=f (b +f fopp O a)).
+  { pose proof (le_add _ _ (fopp O a) Hab) as H. now replace (a +f fopp O a) with zero in H by ring. }
+  pose proof (nonneg_mul _ _ Hw H) as H1.
+  pose proof (le_add _ _ (w *f a) H1) as H2.
+  replace (zero +f w *f a) with (w *f a) in H2 by ring.
+  now replace (w *f (b +f fopp O a) +f w *f a) with (w *f b) in H2 by ring.
+Qed.
+
+Lemma add_le_mono a b c d : a <=f b -> c <=f d -> (a +f c) <=f (b +f d).
+Proof.
+  intros H1 H2. apply le_trans with (b +f c); [now apply le_add|].
+  pose proof (le_add _ _ b H2) as H. 
+  replace (c +f b) with (b +f c) in H by ring. now replace (d +f b) with (b +f d) in H by ring.
+Qed.
+
+(* sums *)
+Lemma fsum_nonneg l : (forall v, In v l -> zero <=f v) -> zero <=f fsum O l.
+Proof.
+  unfold fsum. induction l as [|a l IH]; intros H; cbn [fold_right]; [apply le_refl|].
+  apply nonneg_add; [apply H; now left | apply IH; intros; apply H; now right].
+Qed.
+
+Lemma fsum_map_div s l : s <> zero ->
+  fsum O (map (fun v => v /f s) l) = fsum O l /f s.
+Proof.
+  intros Hs. unfold fsum. induction l as [|a l IH]; cbn [map fold_right]; [field; auto|].
+  rewrite IH. field; auto.
+Qed.
+
+Lemma fsum_app a b : fsum O (a ++ b) = fsum O a +f fsum O b.
+Proof. unfold fsum. induction a as [|x a IH]; cbn [app fold_right]; [ring|]. rewrite IH. ring. Qed.
+
+(* weighted sums: sum_p snd p * f (fst p) *)
+Definition dot (f : nat -> F) (srcs : list (nat * F)) : F :=
+  fsum O (map (fun p => snd p *f f (fst p)) srcs).
+
+Lemma dot_lower f srcs lo :
+  (forall p, In p srcs -> zero <=f snd p /\ lo <=f f (fst p)) ->
+  (lo *f fsum O (map snd srcs)) <=f dot f srcs.
+Proof.
+  unfold dot, fsum. induction srcs as [|p l IH]; intros H; cbn [map fold_right].
+  - replace (lo *f zero) with zero by ring. apply le_refl.
+  - destruct (H p (or_introl eq_refl)) as [Hw Hx].
+    match goal with |- fltb O _ (lo *f (snd p +f ?S)) = false => replace (lo *f (snd p +f S)) with (snd p *f lo +f lo *f S) by ring end.
+    apply add_le_mono; [now apply mul_le_mono | apply IH; intros; apply H; now right].
+Qed.
+
+Lemma dot_upper f srcs hi :
+  (forall p, In p srcs -> zero <=f snd p /\ f (fst p) <=f hi) ->
+  dot f srcs <=f (hi *f fsum O (map snd srcs)).
+Proof.
+  unfold dot, fsum. induction srcs as [|p l IH]; intros H; cbn [map fold_right].
+  - replace (hi *f zero) with zero by ring. apply le_refl.
+  - destruct (H p (or_introl eq_refl)) as [Hw Hx].
+    match goal with |- fltb O (hi *f (snd p +f ?S)) _ = false => replace (hi *f (snd p +f S)) with (snd p *f hi +f hi *f S) by ring end.
+    apply add_le_mono; [now apply mul_le_mono | apply IH; intros; apply H; now right].
+Qed.
+
+
+(* --- the retained weights of one bad channel --------------------------- *)
+Lemma zero_bad_length labels (w : list F) : length (zero_bad O labels w) = length w.
+Proof.
+  revert w; induction labels as [|l ls IH]; intros [|v w]; cbn; auto.
+Qed.
+
+Lemma zero_bad_nth labels (w : list F) j :
+  nth j (zero_bad O labels w) zero = if is_bad (nth j labels 0) then zero else nth j w zero.
+Proof.
+  revert w j; induction labels as [|l ls IH]; intros w j.
+  - cbn [zero_bad]. destruct w; destruct j; reflexivity.
+  - destruct w as [|v w].
+    + cbn [zero_bad]. destruct j; cbn; now destruct (is_bad _).
+    + destruct j as [|j]; cbn [zero_bad nth]; [reflexivity | apply IH].
+Qed.
+
+Lemma kept_length thr labels (w : list F) : length (kept_weights O thr labels w) = length w.
+Proof. unfold kept_weights, zero_small. now rewrite map_length, zero_bad_length. Qed.
+
+Lemma kept_nth thr labels (w : list F) j :
+  nth j (kept_weights O thr labels w) zero =
+  if is_bad (nth j labels 0) then zero
+  else if fltb O (nth j w zero) thr then zero else nth j w zero.
+Proof.
+  unfold kept_weights, zero_small.
+  set (g := fun v : F => if fltb O v thr then zero else v).
+  assert (Hg : g zero = zero) by (unfold g; now destruct (fltb O zero thr)).
+  rewrite <- Hg at 1. rewrite map_nth, zero_bad_nth.
+  destruct (is_bad (nth j labels 0)); [exact Hg | reflexivity].
+Qed.
+
+Lemma kept_nonneg thr labels (w : list F) :
+  (forall v, In v w -> zero <=f v) ->
+  forall v, In v (kept_weights O thr labels w) -> zero <=f v.
+Proof.
+  intros Hw v Hv. destruct (In_nth _ _ zero Hv) as [j [Hj <-]].
+  rewrite kept_length in Hj. rewrite kept_nth.
+  destruct (is_bad _); [apply le_refl|]. destruct (fltb O (nth j w zero) thr); [apply le_refl|].
+  apply Hw, nth_In, Hj.
+Qed.
+
+Lemma in_combine_seq {A} (l : list A) d : forall a j v,
+  In (j, v) (combine (seq a (length l)) l) <-> (a <= j < a + length l)%nat /\ nth (j - a) l d = v.
+Proof.
+  induction l as [|x l IH]; intros a j v; cbn [length seq combine In].
+  - split; [intros [] | intros [H _]; lia].
+  - rewrite IH. split.
+    + intros [H|[H1 H2]].
+      * inversion H; subst. split; [lia|]. now replace (j - j)%nat with O by lia.
+      * split; [lia|]. replace (j - a)%nat with (S (j - S a)) by lia. exact H2.
+    + intros [H1 H2]. destruct (Nat.eq_dec j a) as [->|Hne].
+      * left. replace (a - a)%nat with O in H2 by lia. cbn in H2. now subst.
+      * right. split; [lia|]. replace (j - a)%nat with (S (j - S a)) in H2 by lia. exact H2.
+Qed.
+
+Lemma map_snd_combine_seq {A} (l : list A) a : map snd (combine (seq a (length l)) l) = l.
+Proof. revert a; induction l as [|x l IH]; intros a; cbn; [reflexivity|]. now rewrite IH. Qed.
+
+(* dropping the entries that are not > 0 does not change a sum of non-negative numbers *)
+Lemma fsum_filter_pos (L : list (nat * F)) :
+  (forall p, In p L -> zero <=f snd p) ->
+  fsum O (map snd (filter (fun p => fltb O zero (snd p)) L)) = fsum O (map snd L).
+Proof.
+  unfold fsum. induction L as [|p L IH]; intros H; cbn [filter map fold_right]; [reflexivity|].
+  pose proof (H p (or_introl eq_refl)) as Hp.
+  assert (IH' := IH (fun q Hq => H q (or_intror Hq))).
+  destruct (fltb O zero (snd p)) eqn:E; cbn [map fold_right]; rewrite IH'; [reflexivity|].
+  apply le_cases in Hp. destruct Hp as [Hp|Hp]; [congruence|]. rewrite <- Hp. ring.
+Qed.
+
+Lemma fnonzero_spec s : fnonzero O s = true <-> s <> zero.
+Proof.
+  unfold fnonzero. rewrite orb_true_iff. split.
+  - intros [H|H] ->; rewrite lt_irrefl in H; discriminate.
+  - intros H. destruct (lt_total zero s) as [H1|[H1|H1]]; auto. congruence.
+Qed.
+
+(* everything the code uses as a source *)
+Lemma sources_spec thr labels (w : list F) :
+  (forall v, In v w -> zero <=f v) ->
+  let S := sources O thr labels w in
+  (forall j wj, In (j, wj) S ->
+      (j < length w)%nat /\ is_bad (nth j labels 0) = false /\ zero <f wj /\
+      fltb O (nth j w zero) thr = false /\
+      wj = nth j w zero /f fsum O (kept_weights O thr labels w)) /\
+  (S <> [] -> fsum O (map snd S) = one) /\
+  (S = [] <-> fsum O (kept_weights O thr labels w) = zero).
+Proof.
+  intros Hw S. subst S. unfold sources.
+  set (k := kept_weights O thr labels w). set (s := fsum O k).
+  assert (Hk : forall v, In v k -> zero <=f v) by (apply kept_nonneg; auto).
+  assert (Hs0 : zero <=f s) by (apply fsum_nonneg; auto).
+  destruct (fnonzero O s) eqn:Hnz.
+  - apply fnonzero_spec in Hnz.
+    assert (Hsp : zero <f s) by (apply le_cases in Hs0; destruct Hs0; [auto|congruence]).
+    set (L := combine (seq 0 (length k)) (map (fun v => v /f s) k)).
+    assert (HL : forall p, In p L -> zero <=f snd p).
+    { intros [j v] Hp. unfold L in Hp. apply in_combine_r in Hp. apply in_map_iff in Hp.
+      destruct Hp as [u [<- Hu]]. cbn. apply div_nonneg; auto. }
+    assert (Hsum : fsum O (map snd (filter (fun p => fltb O zero (snd p)) L)) = one).
+    { rewrite fsum_filter_pos by exact HL. unfold L.
+      rewrite <- (map_length (fun v => v /f s) k), map_snd_combine_seq, fsum_map_div by exact Hnz.
+      fold s. field. exact Hnz. }
+    split; [|split].
+    + intros j wj Hin. apply filter_In in Hin. destruct Hin as [Hin Hpos]. cbn in Hpos.
+      unfold L in Hin. rewrite <- (map_length (fun v => v /f s) k) in Hin.
+      apply (in_combine_seq _ zero) in Hin. rewrite map_length in Hin.
+      destruct Hin as [Hj Hv]. replace (j - 0)%nat with j in Hv by lia.
+      unfold k in Hj. rewrite kept_length in Hj.
+      assert (Hv' : wj = nth j k zero /f s).
+      { rewrite <- Hv. replace zero with (zero /f s) at 1 by (field; exact Hnz).
+        now rewrite (map_nth (fun v => v /f s)). }
+      unfold k in Hv'. rewrite kept_nth in Hv'.
+      assert (Hz : zero /f s = zero) by (field; exact Hnz).
+      split; [lia|]. destruct (is_bad (nth j labels 0)).
+      { exfalso. rewrite Hz in Hv'. subst wj. rewrite lt_irrefl in Hpos. discriminate. }
+      destruct (fltb O (nth j w zero) thr).
+      { exfalso. rewrite Hz in Hv'. subst wj. rewrite lt_irrefl in Hpos. discriminate. }
+      repeat split; auto.
+    + intros _. exact Hsum.
+    + split.
+      * intros E. exfalso. fold L in E. rewrite E in Hsum. cbn in Hsum.
+        apply (F_1_neq_0 Fth). auto.
+      * intros E. fold s in E. congruence.
+  - split; [|split].
+    + intros j wj [].
+    + intros H. congruence.
+    + split; [|reflexivity]. intros _.
+      destruct (lt_total zero s) as [H1|[H1|H1]]; auto; unfold fnonzero in Hnz;
+        rewrite H1 in Hnz; cbn in Hnz; try discriminate.
+      rewrite orb_true_r in Hnz. discriminate.
+Qed.
+
+(* --- the linear combination ------------------------------------------- *)
+Lemma map2_length {A B C} (g : A -> B -> C) a b : length (map2 g a b) = Nat.min (length a) (length b).
+Proof. revert b; induction a as [|x a IH]; intros [|y b]; cbn; auto. Qed.
+
+Lemma map2_nth {A B C} (g : A -> B -> C) a b t da db dc :
+  (t < length a)%nat -> (t < length b)%nat ->
+  nth t (map2 g a b) dc = g (nth t a da) (nth t b db).
+Proof.
+  revert b t; induction a as [|x a IH]; intros [|y b] [|t] Ha Hb; cbn in *; try lia; auto.
+  apply IH; lia.
+Qed.
+
+Lemma lincomb_fold_spec (data : list (list F)) ns : forall srcs acc,
+  length acc = ns ->
+  (forall p, In p srcs -> length (nth (fst p) data []) = ns) ->
+  let r := fold_left (fun acc p => vaxpy O (snd p) (nth (fst p) data []) acc) srcs acc in
+  length r = ns /\
+  forall t, (t < ns)%nat ->
+    nth t r zero = nth t acc zero +f dot (fun j => nth t (nth j data []) zero) srcs.
+Proof.
+  induction srcs as [|p srcs IH]; intros acc Hacc Hrows; cbn [fold_left].
+  - split; [exact Hacc|]. intros t Ht. unfold dot, fsum. cbn. ring.
+  - assert (Hp : length (nth (fst p) data []) = ns) by (apply Hrows; now left).
+    assert (Hlen : length (vaxpy O (snd p) (nth (fst p) data []) acc) = ns).
+    { unfold vaxpy. rewrite map2_length, Hacc, Hp. apply Nat.min_id. }
+    destruct (IH _ Hlen (fun q Hq => Hrows q (or_intror Hq))) as [IH1 IH2].
+    split; [exact IH1|]. intros t Ht. rewrite (IH2 t Ht).
+    unfold vaxpy. rewrite (map2_nth _ _ _ t zero zero zero) by lia.
+    unfold dot, fsum. cbn [map fold_right]. ring.
+Qed.
+
+Lemma repeat_nth {A} (a : A) n t d : (t < n)%nat -> nth t (repeat a n) d = a.
+Proof. revert t; induction n as [|n IH]; intros [|t] H; cbn; try lia; auto. apply IH; lia. Qed.
+
+Lemma lincomb_spec srcs (data : list (list F)) ns :
+  (forall p, In p srcs -> length (nth (fst p) data []) = ns) ->
+  length (lincomb O srcs data ns) = ns /\
+  forall t, (t < ns)%nat ->
+    nth t (lincomb O srcs data ns) zero = dot (fun j => nth t (nth j data []) zero) srcs.
+Proof.
+  intros Hrows. unfold lincomb.
+  destruct (lincomb_fold_spec data ns srcs (repeat zero ns) (repeat_length _ _) Hrows) as [H1 H2].
+  split; [exact H1|]. intros t Ht. rewrite (H2 t Ht), repeat_nth by exact Ht. ring.
+Qed.
+
+Lemma lincomb_ext srcs (d d' : list (list F)) ns :
+  (forall p, In p srcs -> nth (fst p) d [] = nth (fst p) d' []) ->
+  lincomb O srcs d ns = lincomb O srcs d' ns.
+Proof.
+  unfold lincomb. generalize (repeat zero ns) as acc.
+  induction srcs as [|p srcs IH]; intros acc H; cbn [fold_left]; [reflexivity|].
+  rewrite (H p (or_introl eq_refl)). apply IH. intros q Hq. apply H. now right.
+Qed.
+
+(* --- the loop: each bad row is computed from the ORIGINAL good rows ------ *)
+Section Loop.
+Variable thr : F.
+Variable W : nat -> list F.
+Variable labels : list Z.
+Variable data : list (list F).
+Hypothesis HW : forall p v, In v (W p) -> zero <=f v.
+Set Default Proof Using "Fth lt_irrefl lt_trans lt_total lt_add lt_mul HW".
+
+Lemma repair_row_ext (d : list (list F)) p :
+  (forall q, is_bad (nth q labels 0) = false -> nth q d [] = nth q data []) ->
+  nth p d [] = nth p data [] ->
+  repair_row O thr labels (W p) d p = repair_row O thr labels (W p) data p.
+Proof.
+  intros Hgood Hp. unfold repair_row. rewrite Hp.
+  destruct (sources_spec thr labels (W p) (HW p)) as [Hs _].
+  destruct (sources O thr labels (W p)) as [|s0 srcs] eqn:E; [reflexivity|].
+  apply lincomb_ext. intros [j wj] Hin. cbn [fst]. apply Hgood.
+  destruct (Hs j wj Hin) as [_ [Hb _]]. exact Hb.
+Qed.
+
+Lemma fold_spec : forall ps (d : list (list F)),
+  NoDup ps ->
+  (forall p, In p ps -> (p < length d)%nat) ->
+  (forall q, is_bad (nth q labels 0) = false -> nth q d [] = nth q data []) ->
+  (forall p, In p ps -> is_bad (nth p labels 0) = true /\ nth p d [] = nth p data []) ->
+  forall p, In p ps ->
+    nth p (fold_left (fun d p => set_nth p (repair_row O thr labels (W p) d p) d) ps d) [] =
+    repair_row O thr labels (W p) data p.
+Proof.
+  induction ps as [|p0 ps IH]; intros d Hnd Hlen Hgood Hps p Hin; [destruct Hin|].
+  cbn [fold_left]. inversion Hnd as [|? ? Hnotin Hnd']; subst.
+  destruct (Hps p0 (or_introl eq_refl)) as [Hb0 Hrow0].
+  rewrite (repair_row_ext d p0 Hgood Hrow0).
+  destruct Hin as [->|Hin].
+  - rewrite fold_untouched by exact Hnotin. apply nth_set_nth_eq. apply Hlen. now left.
+  - apply IH; auto.
+    + intros q Hq. rewrite set_nth_length. apply Hlen. now right.
+    + intros q Hq. rewrite nth_set_nth_neq; [now apply Hgood|]. intros ->. congruence.
+    + intros q Hq. destruct (Hps q (or_intror Hq)) as [Hbq Hrq]. split; [exact Hbq|].
+      rewrite nth_set_nth_neq; [exact Hrq|]. intros ->. contradiction.
+Qed.
+
+Lemma interpolate_bad_row p :
+  length labels = length data ->
+  (p < length data)%nat -> is_bad (nth p labels 0) = true ->
+  nth p (interpolate O thr W labels data) [] = repair_row O thr labels (W p) data p.
+Proof.
+  intros Hl Hp Hb. unfold interpolate. apply fold_spec.
+  - apply bad_positions_from_NoDup.
+  - intros q Hq. apply in_bad_positions in Hq. lia.
+  - auto.
+  - intros q Hq. apply in_bad_positions in Hq. now split.
+  - apply in_bad_positions. split; [lia | exact Hb].
+Qed.
+End Loop.
+
+End OrderedField.
